@@ -128,6 +128,64 @@ impl<'a> LTr<'a> {
                 self.emit(format!("| .panic => {ex}"));
                 Ok((**inner).clone())
             }
+            LTy::Ext(en) if ext_enum(en).is_some() => {
+                let variants = ext_enum(en).unwrap();
+                self.emit(head);
+                for a in &m.arms {
+                    if a.guard.is_some() {
+                        return Err("guard on an enum arm".into());
+                    }
+                    // alternatives without bindings, or a wildcard
+                    let alts: Vec<&Pat> = match &a.pat {
+                        Pat::Or(o) => o.cases.iter().collect(),
+                        p => vec![p],
+                    };
+                    let mut texts = vec![];
+                    let mut binds_all: Vec<(String, LTy)> = vec![];
+                    for p in &alts {
+                        match p {
+                            Pat::Wild(_) => texts.push("_".to_string()),
+                            Pat::Path(pp) => {
+                                let v = path_last(&pp.path);
+                                let (_, tys) = variants.iter().find(|(n, _)| *n == v).ok_or(format!("unknown variant {v}"))?;
+                                if !tys.is_empty() {
+                                    return Err("variant arity".into());
+                                }
+                                texts.push(format!(".{v}"));
+                            }
+                            Pat::TupleStruct(ts) => {
+                                let v = path_last(&ts.path);
+                                let (_, tys) = variants.iter().find(|(n, _)| *n == v).ok_or(format!("unknown variant {v}"))?;
+                                let wild_rest = ts.elems.len() == 1 && matches!(&ts.elems[0], Pat::Rest(_));
+                                if !wild_rest && tys.len() != ts.elems.len() {
+                                    return Err("variant arity".into());
+                                }
+                                let mut t = format!(".{v}");
+                                for (i, ty) in tys.iter().enumerate() {
+                                    match if wild_rest { None } else { Some(&ts.elems[i]) } {
+                                        None | Some(Pat::Wild(_)) => t += " _",
+                                        Some(Pat::Ident(id)) if id.subpat.is_none() && alts.len() == 1 => {
+                                            t += &format!(" {}", id.ident);
+                                            binds_all.push((id.ident.to_string(), ty.clone()));
+                                        }
+                                        _ => return Err("nested pattern".into()),
+                                    }
+                                }
+                                texts.push(t);
+                            }
+                            _ => return Err("enum pattern".into()),
+                        }
+                    }
+                    let saved = self.vars.clone();
+                    for (b, t) in binds_all {
+                        self.vars.insert(b, t);
+                    }
+                    self.emit(format!("| {} =>", texts.join(" | ")));
+                    self.arm_body(&a.body, value)?;
+                    self.vars = saved;
+                }
+                Ok(LTy::Unknown)
+            }
             LTy::Adt(en, _) if self.lreg.enums.contains_key(en) => {
                 let variants = self.lreg.enums[en].clone();
                 self.emit(head);
@@ -188,7 +246,7 @@ impl<'a> LTr<'a> {
         };
         let it = match &*f.expr {
             Expr::MethodCall(m) if m.method == "iter_mut" && m.args.is_empty() => &*m.receiver,
-            _ => return Err("for loop over something other than `.iter_mut()`".into()),
+            _ => return self.for_list(f, &var),
         };
         if self.closure {
             return Err("nested loop".into());
